@@ -191,10 +191,16 @@ class AtomsEngine(Engine):
                     wl = [rng.uniform(0.05, 30.0), wl_u]
                 else:
                     wl = [[rng.uniform(0.05, 30.0) for _ in range(rng.randrange(1, 5))], wl_u]
-                op = {"c": c, "op": "atten", "name": name, "reuse": rng.random() < 0.5,
+                wdt = rng.choice(["float64", "float64", "float32", "int64", "int32"])
+                op = {"c": c, "op": "atten", "name": name, "reuse": rng.random() < 0.5, "wl_dtype": wdt,
                       "n": [rng.choice([1.0, 0.5, rng.uniform(1e-3, 10.0), rng.uniform(1e20, 1e30)]),
                             rng.choice(N_UNITS)],
                       "wl": wl}
+                if wdt.startswith("int"):
+                    # integer wavelengths (e.g. sc.arange) in a unit where they are >= 1
+                    op["wl"] = ([float(rng.randrange(1, 30)) for _ in wl[0]] if isinstance(wl[0], list)
+                                else float(rng.randrange(1, 30)), rng.choice(["angstrom", "nm", "pm"]))
+                    op["wl"] = list(op["wl"])
             elif r < 0.58:
                 op = {"c": c, "op": "refwl"}
             else:
@@ -475,10 +481,13 @@ class AtomsEngine(Engine):
             sp = atoms.ScatteringParams.for_isotope(name)
             n = sc.scalar(op["n"][0], unit=op["n"][1])
             wlv, wlu = op["wl"]
+            wdt = op.get("wl_dtype", "float64")
             if isinstance(wlv, list):
-                wl = sc.array(dims=["wavelength"], values=wlv, unit=wlu)
+                wl = sc.array(dims=["wavelength"], values=np.asarray(wlv).astype(wdt), unit=wlu)
+                wlv = wl.values.astype(float).tolist()
             else:
-                wl = sc.scalar(wlv, unit=wlu)
+                wl = sc.scalar(np.asarray(wlv).astype(wdt).item(), unit=wlu, dtype=wdt)
+                wlv = float(wl.value)
             if op.get("reuse"):
                 # one Material object per caller, re-used: its fields are reassigned (it is a
                 # plain, non-frozen dataclass) before the next evaluation
@@ -516,7 +525,8 @@ class AtomsEngine(Engine):
         g = np.atleast_1d(got.values)
         ctx.log("atten", name, [core.fbits(x) for x in g.tolist()])
         ctx.count("atten_checked")
-        bad = (g.shape != exp.shape) or not np.all(np.abs(g - exp) <= 1e-12 * np.abs(exp))
+        rtol = 1e-6 if op.get("wl_dtype") == "float32" else 1e-12
+        bad = (g.shape != exp.shape) or not np.all(np.abs(g - exp) <= rtol * np.abs(exp))
         if bad:
             ctx.violate("atten_value", f"attenuation_coefficient({op}) = {g.tolist()} 1/m, "
                         f"expected {exp.tolist()}", kind="atten_value")
